@@ -50,8 +50,17 @@ def case_strategy(draw):
         box[1, 0] = rng.uniform(-0.4, 0.4) * edges[0]
         box[2, 0] = rng.uniform(-0.4, 0.4) * edges[0]
         box[2, 1] = rng.uniform(-0.4, 0.4) * edges[1]
+        shape = int(rng.integers(0, 4))
+        if shape == 2:
+            box = box.T.copy()                      # all the skew above the diagonal, zeros below
+        elif shape == 3:
+            box[0, 1] = rng.uniform(-0.25, 0.25) * edges[1]      # skew on both sides (any non-singular box)
+            box[0, 2] = rng.uniform(-0.25, 0.25) * edges[2]
+            box[1, 2] = rng.uniform(-0.25, 0.25) * edges[2]
         if integral:
             box = np.trunc(box)
+        if abs(np.linalg.det(box)) < 0.2 * float(np.prod(edges)):
+            box = np.diag(edges) + np.tril(box, -1)
     # fractional separation away from the tie at +-1/2
     frac = rng.uniform(-0.5 + 1e-4, 0.5 - 1e-4, 3)
     if draw(st.booleans()):
